@@ -125,8 +125,10 @@ RAW_EXTRA = {"int_u64", "int_drop", "int_io", "int_alias", "int_fmt"}
 
 
 class Method:
-    def __init__(self, name, recv, args, ret):
-        self.name, self.recv, self.args, self.ret = name, recv, args, ret
+    def __init__(self, name, recv, args, ret, default=None):
+        # default: None | "plain" | "sized"  — the trait declares a default body (returning a sentinel that the
+        # implementor's override never returns), optionally with a `where Self: Sized` clause
+        self.name, self.recv, self.args, self.ret, self.default = name, recv, args, ret, default
 
 
 class Trait:
@@ -173,7 +175,12 @@ def emit_trait(t):
         if lt:
             sig_recv = sig_recv.replace("&self", "&'a self").replace("&mut self", "&'a mut self")
             rty = rty.replace("&", "&'a ")
-        w("        fn %s%s(%s) -> %s;" % (m.name, lt, ", ".join([sig_recv] + params), rty))
+        if m.default:
+            assert m.ret == "u64"
+            wh = " where Self: Sized" if m.default == "sized" else ""
+            w("        fn %s%s(%s) -> %s%s { 0xDEAD_0000 + %d }" % (m.name, lt, ", ".join([sig_recv] + params), rty, wh, j))
+        else:
+            w("        fn %s%s(%s) -> %s;" % (m.name, lt, ", ".join([sig_recv] + params), rty))
     w("    }")
     # ---- implementation for Imp
     w("    impl %s for Imp {" % t.name)
@@ -246,9 +253,16 @@ def emit_trait(t):
         w("        {")
         w("            let (imp, log) = Imp::new(1);")
         w("            #[allow(unused_mut)] let mut cont: Cont = CBox::from(imp).into();")
-        w("            let getter = v.%s();" % m.name)
-        w("            if getter as usize != words[%d] { return Err((\"vtable:order\".into(), format!(\"word %d of the vtable of %s is not the entry for method `%s` (declaration order)\"))); }" % (j, j, t.name, m.name))
-        w("            let f = unsafe { retype(&getter, words[%d]) };" % j)
+        if m.default:
+            # no use of the per-method getter here: a generator that (wrongly) leaves the method out of the vtable must
+            # show up as a verdict of this check (vtable:size / vtable:slot_target), not as a harness that does not compile
+            recv_ty = {"ref": "&Cont", "mut": "&mut Cont", "own": "Cont", "pinref": "::core::pin::Pin<&Cont>", "pinmut": "::core::pin::Pin<&mut Cont>"}[m.recv]
+            arg_ty = {"u64": "u64", "slice_u8": "::cglue::slice::CSliceRef<u8>"}
+            w("            let f: unsafe extern \"C\" fn(%s) -> u64 = unsafe { ::core::mem::transmute(words[%d]) };" % (", ".join([recv_ty] + [arg_ty[a] for a in m.args]), j))
+        else:
+            w("            let getter = v.%s();" % m.name)
+            w("            if getter as usize != words[%d] { return Err((\"vtable:order\".into(), format!(\"word %d of the vtable of %s is not the entry for method `%s` (declaration order)\"))); }" % (j, j, t.name, m.name))
+            w("            let f = unsafe { retype(&getter, words[%d]) };" % j)
         w("            ptr_reset(); set_sel(0);")
         exprs = []
         for i, a in enumerate(m.args):
@@ -321,8 +335,77 @@ def build(tier):
     add([Method("ma", "ref", ["u64"], "u64"), Method("mb", "ref", ["u64"], "u64"), Method("mc", "ref", ["u64"], "u64")], "3 methods with identical signatures")
     add([Method("ma", "pinmut", ["opt_u64"], "s3"), Method("mb", "pinref", [], "slice_u8" if False else "u64"), Method("mc", "mut", ["mut_ref"], "int_u64")], "3 methods: pinmut/pinref/mut with int_result")
     add([Method("ma", "mut", [], "slice_mut"), Method("mb", "ref", [], "slice_u8"), Method("mc", "ref", [], "str")], "3 methods returning borrows of the state")
+    # methods with a default body that the implementor overrides (with and without a `where Self: Sized` clause)
+    add([Method("ma", "ref", ["u64"], "u64", default="plain"), Method("mb", "mut", ["u64"], "u64", default="sized"), Method("mc", "ref", [], "u64")], "default bodies overridden by the implementor (plain / where Self: Sized) + required method")
+    add([Method("ma", "ref", ["slice_u8"], "u64", default="sized"), Method("mb", "own", ["u64"], "u64", default="sized")], "default bodies: sized with slice argument, consuming with default (where Self: Sized)")
+    add([Method("ma", "pinref", ["u64"], "u64", default="sized")], "default body on a Pin<&Self> receiver with where Self: Sized")
     return traits
 
+
+
+HAND_TV = """
+/// hand-written structure member: `#[vtbl_only]` and `#[custom_impl]` entries between regular methods
+pub mod tv {
+    #![allow(unused_variables, unused_mut, clippy::all)]
+    use h_objbase::support::*;
+    use cglue::*;
+    #[cglue_trait]
+    pub trait TV {
+        fn first(&self) -> u64;
+        #[vtbl_only]
+        #[custom_impl({}, u64, {}, { 77 }, {},)]
+        fn second(&self) -> u64 {
+            0
+        }
+        fn third(&self, a: u64) -> u64;
+        #[custom_impl({ a: u64, }, u64, {}, { a + 5 }, {},)]
+        fn fourth(&self, a: u64) -> u64 {
+            1
+        }
+        fn fifth(&mut self) -> u64;
+    }
+    impl TV for Imp {
+        fn first(&self) -> u64 {
+            self.enter(9001, 0);
+            1
+        }
+        fn third(&self, a: u64) -> u64 {
+            self.enter(9003, a);
+            3
+        }
+        fn fifth(&mut self) -> u64 {
+            self.enter(9005, 0);
+            self.acc += 1;
+            5
+        }
+    }
+    pub const DESC: &str = "vtbl_only + custom_impl entries between regular methods (declaration order of the vtable)";
+    pub fn raw_check() -> Result<u64, (String, String)> {
+        use cglue::boxed::CBox;
+        use cglue::trait_group::*;
+        type Cont = CGlueObjContainer<CBox<'static, Imp>, NoContext, TVRetTmp<NoContext>>;
+        let v: &'static TVVtbl<'static, Cont> = Default::default();
+        let bytes = ::core::mem::size_of_val(v);
+        if bytes != 5 * ::core::mem::size_of::<usize>() {
+            return Err(("vtable:size".into(), format!("vtable of TV is {} bytes, expected 5 function pointers (vtbl_only and custom_impl entries are exported too)", bytes)));
+        }
+        let words: &[usize] = unsafe { ::core::slice::from_raw_parts(v as *const _ as *const usize, 5) };
+        let (imp, log) = Imp::new(1);
+        let mut cont: Cont = CBox::from(imp).into();
+        let f0: unsafe extern "C" fn(&Cont) -> u64 = unsafe { ::core::mem::transmute(words[0]) };
+        let f1: unsafe extern "C" fn(&Cont) -> u64 = unsafe { ::core::mem::transmute(words[1]) };
+        let f2: unsafe extern "C" fn(&Cont, u64) -> u64 = unsafe { ::core::mem::transmute(words[2]) };
+        let f3: unsafe extern "C" fn(&Cont, u64) -> u64 = unsafe { ::core::mem::transmute(words[3]) };
+        let f4: unsafe extern "C" fn(&mut Cont) -> u64 = unsafe { ::core::mem::transmute(words[4]) };
+        let r = unsafe { [f0(&cont), f1(&cont), f2(&cont, 40), f3(&cont, 40), f4(&mut cont)] };
+        let ids: Vec<u32> = log.lock().unwrap().iter().map(|e| e.0).collect();
+        if r != [1, 77, 3, 45, 5] || ids != [9001, 9003, 9005] {
+            return Err(("vtable:order".into(), format!("calling the five vtable words of TV in order returned {:?} and ran methods {:?}; declaration order requires [1, 77, 3, 45, 5] and [9001, 9003, 9005]", r, ids)));
+        }
+        Ok(digest(&(r, ids)))
+    }
+}
+"""
 
 NSHARD = 8
 
@@ -369,6 +452,9 @@ def main():
         reg.append("    vec![")
         for t in ts:
             reg.append("        (%d, %s::DESC, %s::raw_check as fn() -> Result<u64, (String, String)>)," % (t.idx, t.mod, t.mod))
+        if k == 0:
+            reg.append("        (900001, tv::DESC, tv::raw_check as fn() -> Result<u64, (String, String)>),")
+            chunks.append(HAND_TV)
         reg.append("    ]")
         reg.append("}")
         text = "// @generated by gen/objects_gen.py (tier %s, shard %d) — do not edit\nuse h_objbase::harness::TraitCase;\n" % (tier, k)
